@@ -25,6 +25,7 @@ func runC10(c *Ctx) {
 	c.Rule("R10.3", 8, "leaf attributes and concatenation scans equal the textbook table")
 	c.Rule("R10.4", 30, "the two routes expand quantifiers and decompose constructs identically")
 	c.Rule("R10.5", 3, "end-marker discipline")
+	c.Rule("R10.6", 8, "memoised attributes (nullable/firstpos/lastpos) are evaluated only after positions have been assigned")
 
 	ap := c.Pkg("internal/regex/parser/ast")
 	if ap == nil {
@@ -41,6 +42,7 @@ func runC10(c *Ctx) {
 	}
 	checkSiblingMappers(c, "R10.4")
 	checkEndMarker10(c, ap)
+	checkAttributePhase(c, ap)
 }
 
 // checkFoldIdentity: acc = acc OP x inside a loop must start from OP's identity.
@@ -432,4 +434,205 @@ func checkEndMarker10(c *Ctx, p *packages.Package) {
 	} else {
 		c.Lost("R10.5", "AST.ToDFA")
 	}
+}
+
+// checkAttributePhase: R10.6. Some implementations of the node attributes memoise their result in the node. A memoised
+// attribute evaluated while the tree is still being built (before the leaf positions are assigned, or before a parent
+// rewrites the node) freezes a value computed from unnumbered leaves. Typestate rule: every call of a memoising attribute
+// is made by an attribute implementation or by a function that runs after the indexing step of Parse.
+func checkAttributePhase(c *Ctx, p *packages.Package) {
+	info := p.TypesInfo
+	// 1. memoising methods: methods that assign a field of their receiver (directly or via a same-receiver helper)
+	writes := map[*types.Func]bool{}
+	calls := map[*types.Func][]*types.Func{}
+	decl := map[*types.Func]*ast.FuncDecl{}
+	AllFuncDecls(p, func(fd *ast.FuncDecl) {
+		if fd.Body == nil {
+			return
+		}
+		fo, _ := info.Defs[fd.Name].(*types.Func)
+		if fo == nil {
+			return
+		}
+		decl[fo] = fd
+		var recv types.Object
+		if fd.Recv != nil && len(fd.Recv.List) == 1 && len(fd.Recv.List[0].Names) == 1 {
+			recv = info.Defs[fd.Recv.List[0].Names[0]]
+		}
+		ast.Inspect(fd.Body, func(n ast.Node) bool {
+			switch x := n.(type) {
+			case *ast.AssignStmt:
+				for _, l := range x.Lhs {
+					if sel, ok := l.(*ast.SelectorExpr); ok && recv != nil {
+						if id, ok := ast.Unparen(sel.X).(*ast.Ident); ok && info.Uses[id] == recv {
+							writes[fo] = true
+						}
+					}
+				}
+			case *ast.CallExpr:
+				if callee, ok := objOf(info, x.Fun).(*types.Func); ok {
+					calls[fo] = append(calls[fo], callee)
+				}
+			}
+			return true
+		})
+	})
+	// the node interface: the interface of the package implemented by the type that has memoising methods
+	var nodeIface *types.Interface
+	for _, n := range p.Types.Scope().Names() {
+		if tn, ok := p.Types.Scope().Lookup(n).(*types.TypeName); ok {
+			if it, ok := tn.Type().Underlying().(*types.Interface); ok && it.NumMethods() >= 3 {
+				for i := 0; i < it.NumMethods(); i++ {
+					if it.Method(i).Name() == "nullable" || it.Method(i).Name() == "firstPos" {
+						nodeIface = it
+					}
+				}
+			}
+		}
+	}
+	if nodeIface == nil {
+		c.Lost("R10.6", "the node interface with the attribute methods")
+		return
+	}
+	attr := map[string]bool{}
+	for i := 0; i < nodeIface.NumExplicitMethods(); i++ {
+		m := nodeIface.ExplicitMethod(i)
+		if !m.Exported() {
+			attr[m.Name()] = true
+		}
+	}
+	// memoising attribute names: some implementation writes its receiver, directly or through a same-package callee with receiver writes
+	memo := map[string]bool{}
+	isImpl := map[*types.Func]bool{}
+	for fo := range decl {
+		sig := fo.Type().(*types.Signature)
+		if sig.Recv() == nil || !attr[fo.Name()] {
+			continue
+		}
+		if !types.Implements(sig.Recv().Type(), nodeIface) && !types.Implements(types.NewPointer(sig.Recv().Type()), nodeIface) {
+			continue
+		}
+		isImpl[fo] = true
+		w := writes[fo]
+		for _, cal := range calls[fo] {
+			if writes[cal] && cal.Type().(*types.Signature).Recv() != nil {
+				w = true
+				isImpl[cal] = true // the memo helper is part of the attribute implementation
+			}
+		}
+		if w {
+			memo[fo.Name()] = true
+		}
+	}
+	if len(memo) == 0 {
+		c.Pass("R10.6", "no attribute implementation memoises its result (nothing to order)", token.NoPos, "")
+		return
+	}
+	// 2. the indexing step in Parse and what runs after it
+	parse := FuncDecl(p, "", "Parse")
+	if parse == nil {
+		c.Lost("R10.6", "Parse of the syntax-tree route")
+		return
+	}
+	// the indexing function: writes the position field of a leaf (a field of a type implementing the node interface) and is called from Parse
+	var indexCall *ast.CallExpr
+	ast.Inspect(parse.Body, func(n ast.Node) bool {
+		call, ok := n.(*ast.CallExpr)
+		if !ok || indexCall != nil {
+			return true
+		}
+		callee, _ := objOf(info, call.Fun).(*types.Func)
+		fd := decl[callee]
+		if fd == nil {
+			return true
+		}
+		numbers := false
+		ast.Inspect(fd.Body, func(m ast.Node) bool {
+			if as, ok := m.(*ast.AssignStmt); ok {
+				for _, l := range as.Lhs {
+					if sel, ok := l.(*ast.SelectorExpr); ok {
+						if t := info.TypeOf(sel.X); t != nil && (types.Implements(t, nodeIface) || types.Implements(types.NewPointer(t), nodeIface)) {
+							numbers = true
+						}
+					}
+				}
+			}
+			return true
+		})
+		if numbers {
+			indexCall = call
+		}
+		return true
+	})
+	if indexCall == nil {
+		c.Lost("R10.6", "the step of Parse that numbers the leaves")
+		return
+	}
+	post := map[*types.Func]bool{}
+	var close func(f *types.Func)
+	close = func(f *types.Func) {
+		if f == nil || post[f] || decl[f] == nil {
+			return
+		}
+		post[f] = true
+		for _, g := range calls[f] {
+			close(g)
+		}
+	}
+	ast.Inspect(parse.Body, func(n ast.Node) bool {
+		if call, ok := n.(*ast.CallExpr); ok && call.Pos() > indexCall.End() {
+			if callee, ok := objOf(info, call.Fun).(*types.Func); ok {
+				close(callee)
+			}
+		}
+		return true
+	})
+	// exported methods of the result type (the tree wrapper returned by Parse) run after Parse
+	parseFn := info.Defs[parse.Name].(*types.Func)
+	if res := parseFn.Type().(*types.Signature).Results(); res.Len() >= 1 {
+		ms := types.NewMethodSet(res.At(0).Type())
+		for i := 0; i < ms.Len(); i++ {
+			if f, ok := ms.At(i).Obj().(*types.Func); ok && f.Exported() {
+				close(f)
+			}
+		}
+	}
+	// 3. every call site of a memoising attribute
+	nSites := 0
+	perFn := map[string]int{}
+	AllFuncDecls(p, func(fd *ast.FuncDecl) {
+		if fd.Body == nil {
+			return
+		}
+		fo, _ := info.Defs[fd.Name].(*types.Func)
+		ast.Inspect(fd.Body, func(n ast.Node) bool {
+			call, ok := n.(*ast.CallExpr)
+			if !ok {
+				return true
+			}
+			sel, ok := call.Fun.(*ast.SelectorExpr)
+			if !ok || !memo[sel.Sel.Name] {
+				return true
+			}
+			callee, _ := info.Uses[sel.Sel].(*types.Func)
+			if callee == nil || callee.Type().(*types.Signature).Recv() == nil {
+				return true
+			}
+			rt := info.TypeOf(sel.X)
+			if rt == nil || !(types.Implements(rt, nodeIface) || types.Implements(types.NewPointer(rt), nodeIface)) {
+				return true
+			}
+			nSites++
+			perFn[funcKey(p, fd)+"."+sel.Sel.Name]++
+			okSite := isImpl[fo] || post[fo]
+			// the Parse body itself: only after the indexing call
+			if fo == parseFn {
+				okSite = call.Pos() > indexCall.End()
+			}
+			c.Check("R10.6", fmt.Sprintf("%s evaluates %s only once the leaves are numbered (call #%d in the function)", funcKey(p, fd), sel.Sel.Name, perFn[funcKey(p, fd)+"."+sel.Sel.Name]), call.Pos(), okSite,
+				fmt.Sprintf("%s() memoises its result in the node and is called here while the tree is still being built (this function is not an attribute implementation and does not run after %s): firstpos/lastpos of the node are frozen with unnumbered leaves and the followpos links through it are lost", sel.Sel.Name, types.ExprString(indexCall.Fun)),
+				"(a*)?b must accept ab")
+			return true
+		})
+	})
 }
